@@ -335,7 +335,7 @@ structure G (sid : Int) (cr : Bool) (c0 c : Conn) : Prop where
   /-- a stream that existed when the call started is still there -/
   pre : hasStream c0 sid = true → hasStream c sid = true
   /-- the only IDLE stream there can be is the one this call created -/
-  idle : c.cstate ≠ .CLOSED → ∀ e ∈ c.streams, e.2.sm.state = .IDLE → e.1 = sid ∧ hasStream c0 sid = false ∧ cr = true
+  idle : c.cstate ≠ .CLOSED → ∀ e ∈ c.streams, e.2.sm.state = .IDLE → e.1 = sid ∧ cr = true
 
 theorem G.refl {c : Conn} (sid : Int) (h : SO c) (hw : WF c) : G sid false c c :=
   ⟨rfl, rfl, rfl, rfl, rfl, rfl, rfl, rfl, h, fun hs => hs, fun hc e he hi => absurd hi (hw.2 hc e he)⟩
@@ -399,6 +399,76 @@ theorem mem_putStream (c : Conn) (sid : Int) (st : Stream) (e : Int × Stream) (
     · exact Or.inl h1
     · simp only [List.mem_singleton] at h1; subst h1; exact Or.inr rfl
 
+theorem lookup_replace_other {α} (l : List (Int × α)) (sid k : Int) (v : α) (hk : k ≠ sid) :
+    (l.map fun e => if e.1 == sid then (sid, v) else e).lookup k = l.lookup k := by
+  induction l with
+  | nil => rfl
+  | cons e t ih =>
+    obtain ⟨a, b⟩ := e
+    by_cases ha : a = sid
+    · subst ha
+      have : (k == a) = false := by simp [hk]
+      simp only [List.map_cons, beq_self_eq_true, if_true, List.lookup, this]
+      exact ih
+    · have h1 : (a == sid) = false := by simp [ha]
+      simp only [List.map_cons, h1, Bool.false_eq_true, if_false, List.lookup]
+      rw [ih]
+
+theorem lookup_replace_same {α} (l : List (Int × α)) (sid : Int) (v : α) (h : (l.any fun e => e.1 == sid) = true) :
+    (l.map fun e => if e.1 == sid then (sid, v) else e).lookup sid = some v := by
+  induction l with
+  | nil => simp at h
+  | cons e t ih =>
+    obtain ⟨a, b⟩ := e
+    by_cases ha : a = sid
+    · subst ha; simp [List.lookup]
+    · have h1 : (a == sid) = false := by simp [ha]
+      have h2 : (sid == a) = false := by simp [Ne.symm ha]
+      simp only [List.any_cons, h1, Bool.false_or] at h
+      simp only [List.map_cons, h1, Bool.false_eq_true, if_false, List.lookup, h2]
+      exact ih h
+
+theorem lookup_snoc_other {α} (l : List (Int × α)) (sid k : Int) (v : α) (hk : k ≠ sid) :
+    (l ++ [(sid, v)]).lookup k = l.lookup k := by
+  induction l with
+  | nil => have : (k == sid) = false := by simp [hk]
+           simp [List.lookup, this]
+  | cons e t ih =>
+    obtain ⟨a, b⟩ := e
+    simp only [List.cons_append, List.lookup]
+    rw [ih]
+
+theorem lookup_snoc_same {α} (l : List (Int × α)) (sid : Int) (v : α) (h : (l.any fun e => e.1 == sid) = false) :
+    (l ++ [(sid, v)]).lookup sid = some v := by
+  induction l with
+  | nil => simp [List.lookup]
+  | cons e t ih =>
+    obtain ⟨a, b⟩ := e
+    simp only [List.any_cons, Bool.or_eq_false_iff] at h
+    have h2 : (sid == a) = false := by
+      have := h.1; simp only [beq_eq_false_iff_ne, ne_eq] at this ⊢; exact fun hh => this hh.symm
+    simp only [List.cons_append, List.lookup, h2]
+    exact ih h.2
+
+theorem lookup_putStream_same (c : Conn) (sid : Int) (st : Stream) :
+    (putStream sid st c).2.streams.lookup sid = some st := by
+  unfold putStream modifyS
+  simp only
+  split
+  · rename_i h; exact lookup_replace_same _ _ _ h
+  · rename_i h; exact lookup_snoc_same _ _ _ (Bool.eq_false_iff.mpr h)
+
+theorem lookup_putStream_other (c : Conn) (sid k : Int) (st : Stream) (hk : k ≠ sid) :
+    (putStream sid st c).2.streams.lookup k = c.streams.lookup k := by
+  unfold putStream modifyS
+  simp only
+  split
+  · exact lookup_replace_other _ _ _ _ hk
+  · exact lookup_snoc_other _ _ _ _ hk
+
+theorem lookup_setStream_other (c : Conn) (sid k : Int) (st : Stream) (hk : k ≠ sid) :
+    (setStream c sid st).streams.lookup k = c.streams.lookup k := lookup_replace_other _ _ _ _ hk
+
 /-- the H2Stream object `_begin_new_stream` builds -/
 def freshStream (sid mo ow iw : Int) : Stream :=
   { sm := { sid := sid }, maxOutFrame := mo, outWin := ow,
@@ -407,8 +477,9 @@ def freshStream (sid mo ow iw : Int) : Stream :=
 theorem g_createStream {Q : Unit → Conn → Prop} {E : Exc → Conn → Prop} (sid : Int) (ob : Bool) (c0 c : Conn)
     (h : G sid false c0 c)
     (hls : SettingsOk c0.localSettings) (hrs : SettingsOk c0.remoteSettings) (hs : 0 < sid ∧ sid ≤ 2147483647)
-    (hno : hasStream c sid = false)
-    (hq : ∀ c', G sid true c0 c' → hasStream c' sid = true → Q () c') : wp (createStream sid ob) Q E c := by
+    (hq : ∀ c', G sid true c0 c' → hasStream c' sid = true →
+      (∃ ow iw, c'.streams.lookup sid = some (freshStream sid c.maxOutFrame ow iw)) →
+      (∀ k, k ≠ sid → c'.streams.lookup k = c.streams.lookup k) → Q () c') : wp (createStream sid ob) Q E c := by
   unfold createStream
   wps
   have hls' : SettingsOk c.localSettings := by rw [h.ls]; exact hls
@@ -432,40 +503,45 @@ theorem g_createStream {Q : Unit → Conn → Prop} {E : Exc → Conn → Prop} 
   obtain ⟨s1, s2, s3, s4, s5, s6, s7⟩ := putStream_same c sid (freshStream sid c.maxOutFrame ow iw)
   have hhas := hasStream_putStream c sid (freshStream sid c.maxOutFrame ow iw)
   have hcs := putStream_cstate' c sid (freshStream sid c.maxOutFrame ow iw)
-  have hno0 : hasStream c0 sid = false := by
-    cases h0 : hasStream c0 sid with
-    | false => rfl
-    | true => have := h.pre h0; rw [hno] at this; cases this
   have hidle : (putStream sid (freshStream sid c.maxOutFrame ow iw) c).2.cstate ≠ .CLOSED →
       ∀ e ∈ (putStream sid (freshStream sid c.maxOutFrame ow iw) c).2.streams, e.2.sm.state = .IDLE →
-        e.1 = sid ∧ hasStream c0 sid = false ∧ true = true := by
+        e.1 = sid ∧ true = true := by
     intro hc e he hi
     rw [hcs] at hc
     rcases mem_putStream c sid _ e he with h1 | h1
-    · have := (h.idle hc e h1 hi).2.2; cases this
-    · exact ⟨h1, hno0, rfl⟩
+    · have := (h.idle hc e h1 hi).2; cases this
+    · exact ⟨h1, rfl⟩
   cases ob
   · simp only [Bool.false_eq_true, if_false]
     apply hq
     · exact ⟨s1.trans h.out, s2.trans h.sent, s3.trans h.hp, s4.trans h.cfg, f1.trans h.mof, s5.trans h.ls, s6.trans h.rs,
         s7.trans h.fb, ⟨hp.1, by show 0 ≤ sid; omega, hp.2.2⟩, fun _ => hhas, hidle⟩
     · exact hhas
+    · exact ⟨ow, iw, lookup_putStream_same c sid _⟩
+    · exact fun k hk => lookup_putStream_other c sid k _ hk
   · simp only [if_true]
     apply hq
     · exact ⟨s1.trans h.out, s2.trans h.sent, s3.trans h.hp, s4.trans h.cfg, f1.trans h.mof, s5.trans h.ls, s6.trans h.rs,
         s7.trans h.fb, ⟨hp.1, hp.2.1, by show 0 ≤ sid; omega⟩, fun _ => hhas, hidle⟩
     · exact hhas
+    · exact ⟨ow, iw, lookup_putStream_same c sid _⟩
+    · exact fun k hk => lookup_putStream_other c sid k _ hk
 
 theorem g_getOrCreateStream {Q : Unit → Conn → Prop} {E : Exc → Conn → Prop} (sid : Int) (odd : Bool) (c0 c : Conn)
     (h : G sid false c0 c) (hls : SettingsOk c0.localSettings) (hrs : SettingsOk c0.remoteSettings)
-    (hq : ∀ cr c', G sid cr c0 c' → hasStream c' sid = true → Q () c') (he : ∀ e, Allowed e → E e c) :
+    (hq : ∀ cr c', G sid cr c0 c' → hasStream c' sid = true → (cr = true → hasStream c0 sid = false) → Q () c')
+    (he : ∀ e, Allowed e → E e c) :
     wp (getOrCreateStream sid odd) Q E c := by
   unfold getOrCreateStream
   wps
   with_reducible apply ite_intro
-  · intro hs; exact hq false c h hs
+  · intro hs; exact hq false c h hs (fun hh => by cases hh)
   intro hnos
   have hno : hasStream c sid = false := by simpa using hnos
+  have hno0 : hasStream c0 sid = false := by
+    cases h0 : hasStream c0 sid with
+    | false => rfl
+    | true => have := h.pre h0; rw [hno] at this; cases this
   unfold beginNewStream
   wps
   with_reducible apply ite_intro
@@ -477,7 +553,7 @@ theorem g_getOrCreateStream {Q : Unit → Conn → Prop} {E : Exc → Conn → P
   with_reducible apply ite_intro
   · intro _; exact he _ allowed_pErr
   intro hhigh
-  apply g_createStream sid _ c0 c h hls hrs ?_ hno (hq true)
+  apply g_createStream sid _ c0 c h hls hrs ?_ (fun c' g hh _ _ => hq true c' g hh (fun _ => hno0))
   have h1 := h.so.2.1
   have h2 := h.so.2.2
   unfold HIGHEST_ALLOWED_STREAM_ID at hhigh
@@ -661,7 +737,7 @@ def SendHeadersErr (c : Conn) : Exc → Conn → Prop :=
   fun e c' => Allowed e ∧ OS c' = OS c ∧ c'.hp = c.hp ∧ Kept c c'
 
 theorem G.kept {sid : Int} {c0 c : Conn} (g : G sid false c0 c) : Kept c0 c :=
-  ⟨g.so, g.fb, g.ls, g.rs, g.mof, g.cfg, fun hc e he hi => by have := (g.idle hc e he hi).2.2; cases this⟩
+  ⟨g.so, g.fb, g.ls, g.rs, g.mof, g.cfg, fun hc e he hi => by have := (g.idle hc e he hi).2; cases this⟩
 
 theorem notIdle_of_g {sid : Int} {cr : Bool} {c0 c2 : Conn} (g2 : G sid cr c0 c2) (st' : Stream)
     (hst' : st'.sm.state ≠ .IDLE) (hc : (setStream c2 sid st').cstate ≠ .CLOSED) :
@@ -688,7 +764,7 @@ theorem api_sendHeadersTail (c0 c : Conn) (sid : Int) (headers : List Header) (e
   · intro c1 g1
     try wps
     apply g_getOrCreateStream sid _ c0 c1 g1 hwf.ls hwf.rs
-    · intro cr c2 g2 hhas
+    · intro cr c2 g2 hhas hfresh
       wps
       rw [wp_withStreamHp]
       rw [hasStream_lookup] at hhas
@@ -766,7 +842,8 @@ theorem api_sendHeadersTail (c0 c : Conn) (sid : Int) (headers : List Header) (e
               have h0 : hasStream c0 sid = true := by simpa using hop
               have hstni : st.sm.state ≠ .IDLE := by
                 intro hi
-                have := (g2.idle hcl (sid, st) (lookup_mem _ _ _ hl) hi).2.1
+                have hcr := (g2.idle hcl (sid, st) (lookup_mem _ _ _ hl) hi).2
+                have := hfresh hcr
                 rw [h0] at this; cases this
               apply notIdle_of_g g2 s'.1 ?_ hcl
               rcases hni with h1 | h1
